@@ -282,11 +282,36 @@ func (r *Report) Finish() {
 		keys = append(keys, k)
 	}
 	sort.Strings(keys)
-	b, _ := json.MarshalIndent(r, "", " ")
+	b, err := json.MarshalIndent(r, "", " ")
+	if err != nil {
+		fmt.Fprintln(os.Stderr, "report: ", err)
+	}
 	if r.out != "" {
-		os.WriteFile(r.out, b, 0644)
+		if err := os.WriteFile(r.out, b, 0644); err != nil {
+			fmt.Fprintln(os.Stderr, "report: ", err)
+		}
 	} else {
 		Stdout.Write(b)
+	}
+	if os.Getenv("VERIF_FDS") != "" {
+		ents, _ := os.ReadDir("/proc/self/fd")
+		kinds := map[string]int{}
+		for _, e := range ents {
+			l, _ := os.Readlink("/proc/self/fd/" + e.Name())
+			if i := strings.LastIndex(l, "/"); i >= 0 && strings.HasPrefix(l, "/") {
+				l = l[i+1:]
+			}
+			if i := strings.Index(l, ":"); i >= 0 {
+				l = l[:i]
+			}
+			kinds[l]++
+		}
+		fmt.Fprintln(os.Stderr, "open descriptors:", len(ents), kinds)
+	}
+	// os.Exit skips deferred calls: remove the scratch directory here
+	if workDir != "" {
+		os.Chdir("/")
+		os.RemoveAll(workDir)
 	}
 	if len(r.Violations) > 0 {
 		os.Exit(1)
@@ -361,6 +386,8 @@ func Quiet() {
 // Stdout is the process's real standard output (os.Stdout is redirected by Quiet).
 var Stdout = os.Stdout
 
+var workDir string
+
 // WorkDir creates a private scratch directory on tmpfs (fallback /verif/.work) and chdirs into it.
 func WorkDir(id string) (string, func()) {
 	base := "/dev/shm"
@@ -373,5 +400,6 @@ func WorkDir(id string) (string, func()) {
 		panic(err)
 	}
 	os.Chdir(dir)
+	workDir = dir
 	return dir, func() { os.Chdir("/"); os.RemoveAll(dir) }
 }
